@@ -13,6 +13,7 @@
                      V_LEVEL(&g_tab_elem) + 1 == (c)->_type._level)
 #define RECEIVER_TABLE_INV(c) ELEM_INV(c)
 #define EVAL_EXTRA_CLAUSE __CPROVER_ensures((__exc == 0 && __CPROVER_old(g_eval_n) == 2) ==> (V_LEVEL(__CPROVER_return_value) == 0 || V_ISNULL(__CPROVER_return_value)))
+#define ISCONST_PINNED
 #include "prelude.h"
 #include "containers.h"
 
@@ -29,6 +30,7 @@
 
 struct Value *_ZNK4bloc22MemberINSERTExpression5valueERNS_7ContextE(struct MemberINSERTExpression *this, struct Context *ctx)
 __CPROVER_requires(IS_FRESH(this, sizeof(*this)) && IS_FRESH(ctx, sizeof(*ctx)) && IS_FRESH(this->_base_MemberExpression._exp, sizeof(struct Expression)))
+__CPROVER_requires(INPUT_STATE(g_isconst_answer))
 __CPROVER_requires(INPUT_STATE(g_nargs, VALUE_FIELDS(&g_tab_elem)))
 __CPROVER_requires(g_nargs == 2 && ARGS_PINNED && __exc == 0 && g_eval_n == 0 && __caught_n == 0 && GLOBALS_PINNED)
 __CPROVER_requires(VALID_TAG(&g_tab_elem) && V_MAJOR(&g_tab_elem) != POINTER)
@@ -49,6 +51,11 @@ ENS_FRAME2
 PROP(C05) __CPROVER_ensures((g_eval_n >= 3 && V_LVALUE(A3)) ==> (V_SAME(O3, A3) && (FRAME_STR(O3, A3, 2))))
 /* C02: the call is typed like its receiver, and a successful call returns a value of the receiver's (defined) type */
 PROP(C02) __CPROVER_ensures((OK && g_eval_n >= 1 && V_MAJOR(A1) != NO_TYPE) ==> (V_MAJOR(RET) == V_MAJOR(A1) && V_LEVEL(RET) == V_LEVEL(A1) && (V_MINOR(RET) == V_MINOR(A1) || (V_MAJOR(A1) == ROWTYPE && V_MINOR(A1) == 0 /* opaque tuple declaration */))))
+/* C05 / C14: a receiver that is a constant of the program (a string literal in the source, shared by every run and every clone of the compiled
+ * program) is only read -- whether or not the code asks isConst() */
+PROP(C05, C14) __CPROVER_ensures((g_isconst_answer && g_eval_n >= 1 && V_IS(A1, LITERAL) && !V_ISNULL(A1)) ==> (V_SAME(O1, A1) && (FRAME_STR(O1, A1, 0))))
+/* (a constant node hands out owned storage: proved by the const_* jobs, so V_LVALUE(A1) is part of what 'constant receiver' means) */
+PROP(C05, C14) __CPROVER_ensures((OK && g_isconst_answer && g_eval_n >= 1 && V_IS(A1, LITERAL) && !V_ISNULL(A1) && V_LVALUE(A1)) ==> (RET != O1 && !V_LVALUE(RET)))   /* ... and never handed out as the receiver of a further in-place method */
 ;
 
 #include FNS_C
